@@ -60,8 +60,43 @@ def _spec_int(nbytes, signed, asg):
     return Bits.source(bl, signed)
 
 
+ACCESSOR_NAMES = {a for v in ACCESSORS.values() for a in v}
+
+
+def _cm_method(it, recv, name, args, kwargs, e, func):
+    if isinstance(recv, Obj) and recv.name == "cm" and name in ACCESSOR_NAMES:
+        return Sym("call", Sym("attr", Sym("cm"), name), *args)
+    return NotImplemented
+
+
+def _cm_func(it, target, args, kwargs, e, func):
+    # the same accessors reached as values (getattr(cm, name)(idx), a bound method kept in a table ...)
+    if target.qualname.startswith("ClassManager.") and target.qualname.split(".")[-1] in ACCESSOR_NAMES:
+        return Sym("call", Sym("attr", Sym("cm"), target.qualname.split(".")[-1]), *args)
+    return NotImplemented
+
+
+def _cm_attr(it, base, name, func):
+    if isinstance(base, Obj) and base.name == "cm" and name == "packer":
+        return Sym("attr", Sym("cm"), "packer")   # the struct table of the DEX, as for a plain symbolic ClassManager
+    return NotImplemented
+
+
+def _new_cm(it, m):
+    """the ClassManager the values are decoded with: an object of the repository's class initialised by its real __init__ (vm=None), so that
+    whatever the code keeps on the ClassManager (tables, caches) behaves as written; the four id accessors stay symbolic"""
+    cmcls = m.cls("ClassManager")
+    if cmcls is None:
+        return Sym("cm")
+    cm = Obj(cmcls, "cm")
+    f = cmcls.lookup("__init__")
+    if f is not None:
+        it.call_function(f, [None], recv=cm)
+    return cm
+
+
 def _hooks():
-    return {"inline_funcs": {"*module*"}}
+    return {"inline_funcs": {"*module*"}, "method": _cm_method, "attr": _cm_attr, "func": _cm_func}
 
 
 def run(ctx):
@@ -99,6 +134,7 @@ def run(ctx):
     ok = any(isinstance(n, ast.Return) and n.value is not None and ast.unparse(n.value) == "self.value" for n in ast.walk(get_value.node))
     ctx.check("getter", "EncodedValue.get_value returns self.value", ok, get_value, "EncodedValue.get_value", "get_value() no longer returns the decoded value")
 
+    _check_ref_sequence(ctx, repo, folder, m, cls, init)
     _check_binding(ctx, m)
     _check_class_binding(ctx, m)
     _check_printing(ctx, repo, folder, reader_values)
@@ -116,7 +152,7 @@ def _check_header(ctx, repo, folder, m, cls, init, t, name, arg, kind, reader_va
         it.max_split = 4
         st = StreamV("buff")
         o = it.new_obj(cls)
-        it.call_function(init, [st, Sym("cm")], recv=o)
+        it.call_function(init, [st, _new_cm(it, m)], recv=o)
         return a, o, st
 
     inst = "%s value_arg=%d" % (name, arg)
@@ -157,13 +193,57 @@ def _check_header(ctx, repo, folder, m, cls, init, t, name, arg, kind, reader_va
             ctx.check("consumed", inst, st.pos == 1 + nbytes, init, "%s size" % name,
                       "%s with value_arg=%d consumes %s bytes after the header, expected %d" % (name, arg, st.pos, nbytes))
         elif kind in NESTED:
-            ok = isinstance(val, Sym) and val.op == "new" and val.args[0] == NESTED[kind] and len(val.args) >= 3 and isinstance(val.args[1], StreamV) and val.args[2] == Sym("cm")
+            ok = isinstance(val, Sym) and val.op == "new" and val.args[0] == NESTED[kind] and len(val.args) >= 3 and isinstance(val.args[1], StreamV) and (val.args[2] == Sym("cm") or (isinstance(val.args[2], Obj) and val.args[2].name == "cm"))
             ctx.check("nested-value", inst, ok, init, name, "%s must be parsed as %s(buff, cm) from the same stream; got %s" % (name, NESTED[kind], show(val)[:120]))
         elif kind == "null":
             ctx.check("null-value", inst, val is None and st.pos == 1, init, name, "VALUE_NULL must be None and consume no bytes; got %s" % show(val))
         elif kind == "bool":
             ctx.check("bool-value", inst, val is bool(arg) and st.pos == 1, init, name,
                       "VALUE_BOOLEAN with value_arg=%d must be %s and consume no bytes; got %s" % (arg, bool(arg), show(val)))
+
+def _check_ref_sequence(ctx, repo, folder, m, cls, init):
+    """Two index-typed values of DIFFERENT kinds with the SAME index are decoded one after the other from one stream with one
+    ClassManager (constructed by its real __init__, so whatever the code keeps on it is shared): the second value must still be
+    resolved through its own accessor.  (A reference memo whose key does not name the id table hands out the first item.)"""
+    ctx.require(m.cls("ClassManager") is not None, "ClassManager vanished")
+    refs = [(t, name, kind) for t, (name, _, kind) in sorted(SPEC.items()) if kind in ACCESSORS]
+
+    for (ta, na, ka), (tb, nb, kb) in [(a, b) for a in refs for b in refs if a[0] != b[0]]:
+        if ACCESSORS[ka] == ACCESSORS[kb]:
+            continue   # VALUE_FIELD / VALUE_ENUM are both indices into field_ids
+        inst = "%s then %s with the same index" % (na, nb)
+        ctx.count("ref_sequences")
+
+        def run(asg, ta=ta, tb=tb):
+            a = dict(asg)
+            it = Interp(repo, folder, asg=a, hooks=_hooks())
+            it.max_split = 4
+            idx = [a.get(("s", "i", i), ("s", "i", i)) for i in range(8)]
+            backing = BytesV([[(ta >> i) & 1 for i in range(8)], list(idx), [(tb >> i) & 1 for i in range(8)], list(idx)])
+            st = StreamV("buff", backing=backing)
+            cm = _new_cm(it, m)
+            first = it.new_obj(cls)
+            it.call_function(init, [st, cm], recv=first)
+            second = it.new_obj(cls)
+            it.call_function(init, [st, cm], recv=second)
+            return a, second.attrs.get("value"), st.pos
+
+        for asg0, r in explore(run):
+            if isinstance(r, Raised):
+                ctx.check("ref-sequence", inst, False, init, inst, "EncodedValue raises %s when %s" % (r, inst), node=r.node)
+                continue
+            asg, val, pos = r
+            exp = Bits.source([asg.get(("s", "i", i), ("s", "i", i)) for i in range(8)], False)
+            if not (isinstance(val, Sym) and val.op == "call" and val.args and isinstance(val.args[0], Sym) and val.args[0].op == "attr" and val.args[0].args[0] == Sym("cm")):
+                raise AnalysisError("EncodedValue.__init__: the value of the second item (%s) is a term the rule cannot read (%s)" % (inst, show(val)[:160]))
+            meth = val.args[0].args[1]
+            idx = val.args[1] if len(val.args) > 1 else None
+            idxb = Bits.const(idx) if isinstance(idx, int) and not isinstance(idx, bool) else idx
+            ok = meth in ACCESSORS[kb] and isinstance(idxb, Bits) and idxb.subst(asg) == exp.subst(asg)
+            ctx.check("ref-sequence", inst, ok, init, "%s after %s" % (nb, na),
+                      "%s decoded after a %s with the same index is resolved as %s; it must be cm.%s(index)" % (nb, na, show(val)[:120], "/".join(sorted(ACCESSORS[kb]))),
+                      detail="second item resolved through cm.%s" % "/".join(sorted(ACCESSORS[kb])))
+    ctx.floor("ref_sequences", 10)
 
 
 def _check_binding(ctx, m):
